@@ -1,7 +1,7 @@
 (* C20 — executable correspondence interface.  The Go harness prints [case] terms holding the
    input AND what the implementation was observed to do; [check_case] compares with the model
    and evaluates the spec oracle on the observation. *)
-From Kit Require Export C20.Model C20.Spec Lib.CheckLib.
+From Kit Require Export C20.Model C20.ModelLock C20.Spec Lib.CheckLib.
 
 (* ------------------------------------------------------------------------------------- *)
 (* Scripts: one caller, the pool settles after every step.                                 *)
@@ -138,6 +138,36 @@ Definition nested_called (pre ctxs : list Z) (ops1 : list sop) : bool :=
   let s1 := script_end (settle (new_pool pre ctxs)) ops1 in
   negb (ctx_done s1 || closed s1).
 
+(* The same prediction COMPUTED by the lock-aware model of ModelLock.v, on every nested case: the
+   Add is begun in the settled state after [ops1]; while it is in flight each nested operation is
+   tried (a disabled one - Cancel, Size - does not run inside: it runs after the Add), the watcher
+   is given every step it can take; [inside] = every nested call ran inside / for ended members
+   the pool's context got done inside, [ndone] = the pool's context is done before LAddEnd.
+   Proofs_lock.v proves this is always (nested_called, false, false). *)
+Definition is_end (op : sop) : bool := match op with SEnd _ => true | _ => false end.
+
+Definition flight_op (acc : lstate * bool) (op : sop) : lstate * bool :=
+  match lstep (fst acc) (LEv (ev_of op)) with
+  | Some l => (lsettle l, snd acc)
+  | None => (fst acc, false)
+  end.
+
+Definition nested_flight (pre ctxs : list Z) (ops1 : list sop) (m : Z) (nops : list sop)
+  : bool * bool * bool :=
+  let s1 := script_end (settle (new_pool pre ctxs)) ops1 in
+  match lstep (s1, None) (LAddBegin m) with
+  | Some (s, Some f) =>
+      if f_append f then
+        let r := fold_left flight_op nops ((s, Some f), true) in
+        let done := ctx_done (fst (fst r)) in
+        (true, if forallb is_end nops then done else snd r, done)
+      else (false, false, false)
+  | _ => (false, false, false)
+  end.
+
+Definition flight_agrees (called inside ndone : bool) (p : bool * bool * bool) : bool :=
+  Bool.eqb called (fst (fst p)) && Bool.eqb inside (snd (fst p)) && Bool.eqb ndone (snd p).
+
 Definition nested_agrees (pre ctxs : list Z) (ops1 : list sop) (o0 : bool * Z)
            (obs1 : list (bool * Z)) (m : Z) (nops : list sop) (called inside ndone nret : bool)
            (nres : option Z) (oA : bool * Z) (ops2 : list sop) (obs2 : list (bool * Z))
@@ -145,8 +175,8 @@ Definition nested_agrees (pre ctxs : list Z) (ops1 : list sop) (o0 : bool * Z)
   let '(m0, mobs, mfin) := script_model pre ctxs (lin_add_first ops1 m nops ops2) in
   eqb_obs m0 o0 &&
   pobs_matches mobs (lin_add_first_obs obs1 nops ndone nres oA obs2) &&
-  Bool.eqb called (nested_called pre ctxs ops1) &&
-  negb inside && negb ndone && nret && Bool.eqb mfin fin && negb leak.
+  flight_agrees called inside ndone (nested_flight pre ctxs ops1 m nops) &&
+  nret && Bool.eqb mfin fin && negb leak.
 
 (* ------------------------------------------------------------------------------------- *)
 
